@@ -14,7 +14,7 @@ Quiescent == ready = <<>>
 \* Listed known findings (known_findings.json) that can make a property fail; a behaviour that went through
 \* one of these deviation clauses is excused for THAT property only.
 DevOf(p) == CASE p = "C01" -> {}
-              [] p = "C02" -> {"D7", "D9", "D10"}
+              [] p = "C02" -> {"D9", "D10"}
               [] p = "C03" -> {"D7", "D10", "D11"}
               [] p = "C04" -> {"D9"}
               [] p = "C05" -> {"D10"}
